@@ -7,7 +7,7 @@ git checkout -q -- . 2>/dev/null
 mkdir -p examples; for f in OUT/*.rs; do [ -f "$f" ] && cp "$f" examples/; done
 demo=$(ls OUT/*.rs 2>/dev/null | head -1); demo=$(basename "${demo%.rs}")
 export CARGO_NET_OFFLINE=true
-if [ -n "$demo" ]; then run="cargo run --offline --quiet --example $demo"; else run="bash OUT/demo.sh"; fi
+if [ -n "$demo" ]; then run="cargo run --offline --quiet --example $demo"; else sh=$(ls OUT/*.sh | head -1); demo=$(basename "$sh"); mkdir -p examples; cp "$sh" examples/; run="eval cargo build --offline --quiet 2>/dev/null; bash examples/$demo"; fi
 $run > /tmp/confirm_clean.log 2>&1; clean=$?
 git apply OUT/patch.diff || { echo "patch does not apply"; exit 9; }
 cargo test --offline > /tmp/confirm_test.log 2>&1; t=$?
